@@ -19,7 +19,7 @@ import os
 import re
 
 from ..facts import peel, strip_casts, show, walk, cond_atom
-from .common import (callee_short, field_of, assigned_target, const_int, local_ref, enclosing_loops, loop_container, resolve_typedef)
+from .common import (base_of, callee_short, field_of, assigned_target, const_int, local_ref, enclosing_loops, loop_container, resolve_typedef)
 from . import gates as G
 
 LEVEL = "other"
@@ -165,6 +165,7 @@ def run(ctx):
     ctx.rule("R14.2", "file_identifier -> make_module_def -> the one def passed to both write_code and InterrogateDatabase::write")
     ctx.rule("R14.3", "getenv reachable from a main() only with the literal name SOURCE_DATE_EPOCH")
     ctx.rule("R14.4", "no locale is installed in any function reachable from a main()")
+    ctx.rule("R14.6", "every scalar data member (integer, enum, bool, floating, pointer) of a class of the parser, the generators or the database is given a value on every path through every constructor (mem-initialiser, default member initialiser, or assignments that cover all paths): no output can depend on indeterminate memory")
     ctx.rule("R14.5a", "no pointer value is printed by a function that can write an output file")
     ctx.rule("R14.5b", "no unordered container keyed by a pointer is iterated")
     ctx.rule("R14.5c", "every traversal of an address-ordered container is order-insensitive or re-sorted by a total address-free comparator")
@@ -343,7 +344,7 @@ def run(ctx):
                 total, why = comparator_total(g)
                 ctx.ob("R14.5d", "%s|std::sort|%s" % (f.name, cmpf["n"]), total, f.loc(c), "comparator %s %s" % (cmpf["n"], why))
     ctx.floor("R14.5d", "std::sort calls with a named comparator", n_sorts, 1)
-
+    definite_initialisation(ctx)
 
 def _enclosing_case(db, f, node):
     """Names of the case labels of the innermost switch arm containing node (a stable site context)."""
@@ -565,3 +566,64 @@ def comparator_total(g):
     if k:
         return False, "ends in a comparison of %s() (%s): distinct elements tie and keep their incoming address order" % (k, NON_INJECTIVE_KEYS[k])
     return True, "ends in a comparison of a final key and never compares the pointers themselves"
+
+
+
+UNINIT_EXEMPT = {
+    ("CPPPreprocessor::InputFile", "_prev_last_c"): "assigned by each of the three creators (push_file, push_string, push_expansion) right after `new InputFile`, read only when the file is popped",
+    ("CPPInstanceIdentifier::Modifier", "_trailing_return_type"): "read only for IIT_func modifiers, which are made by Modifier::func_type() and that assigns it",
+}
+_SCALAR_WORDS = {"int", "bool", "unsigned", "long", "short", "char", "float", "double", "size_t", "signed"}
+
+
+def _is_scalar(db, t, ct):
+    t = (ct or t or "").replace("const ", "").replace("volatile ", "").strip()
+    if t.endswith("*"):
+        return True
+    if t in db.enums:
+        return True
+    return bool(t) and all(w in _SCALAR_WORDS for w in t.replace("std::", "").split())
+
+
+def definite_initialisation(ctx):
+    db = ctx.db
+    n = 0
+    for name, r in sorted(db.records.items()):
+        if not any(d in r["file"] for d in ("/cppparser/", "/interrogate/", "/interrogatedb/")) or "bison" in r["file"].lower():
+            continue
+        fields = [fl for fl in r["fields"] if not fl.get("static") and _is_scalar(db, fl.get("t"), fl.get("ct"))]
+        if not fields:
+            continue
+        short = name.split("::")[-1]
+        for c in db.fns(name + "::" + short):
+            if len(c.params) == 1 and short in c.params[0]["t"] and "&" in c.params[0]["t"]:
+                continue      # copy / move constructor: copies whatever the source has
+            inits = c.d.get("inits", [])
+            if any(i.get("delegating") for i in inits):
+                continue
+            done = {i["m"].split("::")[-1] for i in inits if i.get("m")}
+            cfg = c.cfg
+            for fl in fields:
+                n += 1
+                if fl["n"] in done:
+                    continue
+                blocks = []
+                for x in c.walk():
+                    t = assigned_target(x)
+                    if t and (field_of(t[0]) or "") == name + "::" + fl["n"]:
+                        b = base_of(t[0])
+                        if b is None or b.get("k") == "this":
+                            loc = cfg.locate(x)
+                            if loc:
+                                blocks.append(loc[0])
+                ok = bool(blocks) and cfg.exit not in cfg.reachable(cut_blocks=blocks)
+                key = (name, fl["n"])
+                if not ok and key in UNINIT_EXEMPT:
+                    ctx.ob("R14.6", "%s|%s|exception" % key, True, c.loc(), "reasoned exception: " + UNINIT_EXEMPT[key])
+                    continue
+                if not ok:
+                    ctx.ob("R14.6", "%s(%s)|%s" % (name, ",".join(p["t"] for p in c.params)[:60], fl["n"]), False, c.loc(),
+                           "%s %s::%s is %s" % (fl.get("t"), name, fl["n"], "assigned only on some paths through this constructor" if blocks else "not given a value by this constructor"))
+    ctx.ob("R14.6", "all-constructors", True, "src", "%d (constructor, scalar member) pairs examined" % n)
+    ctx.floor("R14.6", "(constructor, scalar member) pairs", n, 200)
+
